@@ -27,7 +27,8 @@ import z3
 
 from vlib.common import Obligation, log
 from engines.polyid import terms as R
-from engines.polyid.interp import Interp, Cell, Ref, IntV, Agg, UNIT, MirError, Unsupported
+from engines.polyid.interp import (Interp, Cell, Ref, IntV, Agg, UNIT, MirError, Unsupported, clone,
+                                   strip_generics, short_type)
 from engines.polyid.prove import Ideal, prove_zero
 from engines.llsym.build import Driver
 from . import fields as F
@@ -60,10 +61,63 @@ def patch_mir(mir):
 class BInterp(Interp):
     """slice length (`PtrMetadata`) and the abstract inverse"""
 
-    def __init__(self, mir):
-        Interp.__init__(self, mir, call_hook=self._hook)
+    def __init__(self, mir, near_line=0, elem=""):
+        Interp.__init__(self, mir, call_hook=self._hook, const_hook=self._const)
+        self.elem = elem        # short name of the slice's element type (a field type even if not named GF*/ModInt256)
         self.invs = []          # (symbol name, argument term)
         self._inv_of = {}
+        self._near = near_line
+        self._cc = {}
+
+    def _const(self, it, text):
+        """constants of the backend modules: MIR operands print the full path
+        (`backend::w64::gf255_m64::GF255::<MQ>::batch_invert::promoted[2]`, `ed448::scalarmod::Scalar::N`) while
+        the items are indexed as `gf255_m64::<impl at ..>::batch_invert::promoted[2]`; function-local consts
+        (`SUBLEN` of gfgen) are indexed by their bare name."""
+        if text in self._cc:
+            return clone(self._cc[text])
+        parts = strip_generics(text).split("::")
+        if len(parts) >= 2 and parts[-2] == self.elem and parts[-1] in ("ZERO", "ONE", "MINUS_ONE", "TWO"):
+            return {"ZERO": R.ZERO, "ONE": R.ONE, "MINUS_ONE": R.const(-1), "TWO": R.const(2)}[parts[-1]]
+        try:
+            v = self._named_const(text)
+        except MirError:
+            v = self._fallback_const(text)
+        self._cc[text] = v
+        return clone(v)
+
+    def _fallback_const(self, text):
+        base = strip_generics(text)
+        parts = base.split("::")
+        last = parts[-1]
+        cands = []
+        for nm in self.mir.by_last.get(last, []):
+            for which, (kind, s, e) in enumerate(self.mir.items[nm]):
+                if kind not in ("const", "static", "promoted"):
+                    continue
+                if nm == last:
+                    cands.append((abs(s - self._near), nm, which))       # function-local const: nearest to the body
+                    continue
+                m = re.fullmatch(r"(\w+)::<impl at [^>]*>::(.*)", nm)
+                if not m:
+                    continue
+                tail = m.group(2).split("::")
+                if parts[-len(tail):] != tail:
+                    continue
+                # the module named in the item must occur in the operand's path, before the type name
+                if m.group(1) not in parts[:-len(tail)]:
+                    continue
+                st = self._impl_self_type(nm[:nm.index(">::") + 1])
+                if st and st not in parts:
+                    continue
+                cands.append((0, nm, which))
+        if not cands:
+            raise MirError("cannot resolve constant %s" % text)
+        cands.sort()
+        if len(cands) > 1 and cands[0][0] == cands[1][0]:
+            raise MirError("constant %s is ambiguous: %r" % (text, [c[1] for c in cands][:4]))
+        _, nm, which = cands[0]
+        return self._run_body(self.mir.body(nm, which), [], 2)
 
     def op_ext(self, op, a, b=None):
         if op == "PtrMetadata" and b is None and isinstance(a, Ref):
@@ -85,7 +139,7 @@ class BInterp(Interp):
         return R.sym(s)
 
     def _hook(self, it, fr, cal, args):
-        if not cal.is_field:
+        if not (cal.is_field or cal.self_short == self.elem):
             return NotImplemented
         m = cal.method
         fv = self._fv
@@ -100,7 +154,43 @@ class BInterp(Interp):
         if m == "invert" and len(args) == 1:
             self.prim_count["div"] += 1
             return self.inv(fv(args[0]))
+        if cal.trait in ("Div", "DivAssign") and m in ("div", "div_assign") and len(args) == 2:
+            # operator impls: the by-value / by-reference variants differ only in the receiver's type, which the
+            # generic resolver does not see for a constant operand; pick by the actual argument kinds and run the
+            # real impl (it ends in set_div, intercepted above)
+            cands = []
+            mod = fr.body.name.split("::<impl")[0]
+            for nm in self.mir.by_last.get(m, []):
+                if not nm.startswith(mod + "::<impl"):
+                    continue
+                for which, (kind, s, e) in enumerate(self.mir.items[nm]):
+                    if kind != "fn":
+                        continue
+                    b = self.mir.body(nm, which)
+                    if len(b.params) == 2 and all(short_type(t)[1] == cal.self_short for _, t in b.params) and \
+                            all(t.strip().startswith("&") == isinstance(a, Ref) for (_, t), a in zip(b.params, args)):
+                        cands.append((nm, which))
+            if len(cands) == 1:
+                return self._run_body(self.mir.body(*cands[0]), args, fr.depth + 1)
+        if not cal.is_field:
+            return self.field_prim(cal, args)     # macro-generated field type (gfgen): same primitives
         return NotImplemented
+
+    def resolve(self, fr, cal, arg_ops):
+        try:
+            return Interp.resolve(self, fr, cal, arg_ops)
+        except MirError:
+            # several MIR bodies printed for one item (const fn: const-eval and runtime copies; helper functions
+            # nested in a macro-generated function): same name, take the copy nearest to the caller
+            mod = fr.body.name.split("::<impl")[0]
+            names = set(nm for nm in self.mir.by_last.get(cal.method, [])
+                        if nm.startswith(mod + "::<impl") or "::" not in nm)
+            if len(names) == 1:
+                nm = names.pop()
+                here = min(s for (k, s, e) in self.mir.items.get(fr.body.name, [(0, self._near, 0)]))
+                best = min(range(len(self.mir.items[nm])), key=lambda w: abs(self.mir.items[nm][w][1] - here))
+                return (nm, best)
+            raise
 
 
 def find_bodies(mir):
@@ -139,7 +229,9 @@ def sub_batch(mir, item):
 
 
 def execute(mir, item, n):
-    it = BInterp(mir)
+    kind, s0, e0 = mir.items[item[0]][item[1]]
+    ty = re.search(r"\(_1: &mut \[([^\]]+)\]\)", mir.lines[s0])
+    it = BInterp(mir, near_line=s0, elem=short_type(ty.group(1))[1] if ty else "")
     xs = [R.sym("x%d" % i) for i in range(n)]
     cell = Cell(Agg("array", list(xs)))
     it.run(item, [Ref(cell)])
@@ -255,11 +347,6 @@ def native_driver(tag, n):
                   "        <%s>::batch_invert(&mut xs[..]);\n"
                   "        *out = unsafe { transmute::<[%s; %d], [u64; %d]>(xs) };"
                   % (f.rust, n, n * L, f.rust, n, f.rust, f.rust, n, n * L))
-
-
-def plan(mir_bodies, tier):
-    """[(label, file, item, n, [native tags])] and the native drivers needed"""
-    return None
 
 
 def repr_of(f, v, r):
